@@ -431,3 +431,36 @@ reg('C25', level='model_checking', runs=c25_runs, quick_budget_s=240, thorough_b
     design_ref='DESIGN.md section 4, C25', assumptions=MC_ASSUME,
     rule='one evaluation = one complete execution of one program tuple under one schedule; distinct_nontrivial = distinct scheduler states with more than one continuation',
     guards=[need_outcomes(1)])
+
+
+# ---------------------------------------------------------------------------------------------- weak-memory legs
+# The lock-free cores are additionally explored with opt.wm=1: non-RMW loads may read any store that
+# coherence and happens-before still allow (an older store is a deviation), so orderings that a
+# sequentially consistent scheduler cannot distinguish (a weakened release/acquire, a missing seq_cst
+# fence) become visible. Configurations are drawn evenly from the plain-mode matrix of the same check.
+from specs import CHECKS as _CHECKS  # noqa: E402
+
+
+def _add_wm(pid, n_quick, n_thorough, b_quick, b_thorough):
+    base = _CHECKS[pid]['runs']
+
+    def runs(tier):
+        rs = base(tier)
+        plain = [r for r in rs if r.mode == 'plain']
+        k = n_quick if tier == 'quick' else n_thorough
+        b = b_quick if tier == 'quick' else b_thorough
+        step = max(1, len(plain) // max(1, k))
+        extra = [McRun(r.bin, r.harness, r.params, bound=min(r.bound, b), opts=dict(r.opts, wm=1), budget=r.budget, tag='.wm')
+                 for r in plain[::step][:k]]
+        return rs + extra
+    _CHECKS[pid]['runs'] = runs
+    _CHECKS[pid]['level_note'] += ' A weak-memory leg (opt.wm=1: view-based release/acquire model, stale reads as deviations; stronger than C++11 for seq_cst, no load buffering) re-explores a sample of the matrix.'
+
+
+_add_wm('C21', 8, 30, 2, 3)
+_add_wm('C22', 20, 120, 2, 2)
+_add_wm('C23', 12, 60, 2, 2)
+_add_wm('C24', 15, 60, 2, 3)
+_add_wm('C34', 25, 150, 2, 2)
+_add_wm('C35', 30, 200, 2, 3)
+_add_wm('C36', 20, 150, 2, 3)
